@@ -47,14 +47,18 @@ theorem inv2_applyWrite {st : St} (hr : st.phase = .running) (hi : Inv st) (h : 
     split
     case isTrue => exact h
     case isFalse hw =>
-      have hw' : fl.written = false := by simpa using hw
+      simp at hw
+      obtain ⟨hw', hacq⟩ := hw
       obtain ⟨hrun, hcons, hseq, hlog, h0⟩ := hi.infl fl hfl
+      obtain ⟨f1, _, _, _⟩ := hi.flags fl hfl
       have hss := hi.stored_seq (by rw [hr]; decide)
       obtain ⟨a, b, c, d⟩ := h
       -- names do not matter
       refine inv2_same (st := putRow { st with inflight := some { fl with written := true } } fl.toFrozen
-        ⟨fl.seq, fl.metric, fl.tagv⟩) ?_ (by simp) (by simp) (by simp) (by simp)
+        fl.closed ⟨fl.seq, fl.metric, fl.tagv⟩) ?_ (by simp) (by simp) (by simp) (by simp)
       unfold putRow
+      rw [f1]
+      simp only [Bool.false_eq_true, if_false]
       split
       case isTrue htf =>
         obtain ⟨fz, hfz, hnc⟩ := hi.to_frozen fl hfl htf hw'
@@ -169,11 +173,27 @@ theorem inv2_step (cfg : Cfg) {st : St} (e : Ev) (hi : Inv st) (h : Inv2 st) : I
     · exact h
   case append m t =>
     split
-    · exact inv2_same h rfl rfl rfl rfl
+    · split
+      · exact h
+      · exact inv2_same h rfl rfl rfl rfl
     · exact h
   case applyBegin =>
     split
-    · apply inv2_same h <;> (unfold doApplyBegin beginAt ackTo; (repeat' split) <;> rfl)
+    · split
+      · exact h
+      · apply inv2_same h <;> (unfold doApplyBegin beginAt ackTo; (repeat' split) <;> rfl)
+    · exact h
+  case applyTake =>
+    split
+    · apply inv2_same h <;> (unfold doApplyTake; (repeat' split) <;> rfl)
+    · exact h
+  case applyAcquire =>
+    split
+    · apply inv2_same h <;> (unfold doApplyAcquire; (repeat' split) <;> rfl)
+    · exact h
+  case walExpire =>
+    split
+    · apply inv2_same h <;> (unfold doWalExpire; (repeat' split) <;> rfl)
     · exact h
   case applyWrite =>
     split
@@ -220,11 +240,11 @@ theorem inv2_step (cfg : Cfg) {st : St} (e : Ev) (hi : Inv st) (h : Inv2 st) : I
     · apply inv2_same h <;> (unfold doLogGC; (repeat' split) <;> rfl)
     · exact h
 
-theorem inv2_run (cfg : Cfg) (evs : List Ev) {st : St} (hi : Inv st) (h : Inv2 st) :
+theorem inv2_run (cfg : Cfg) (evs : List Ev) {st : St} (hg : GapFree cfg st evs) (hi : Inv st) (h : Inv2 st) :
     Inv2 (run cfg st evs) := by
   induction evs generalizing st with
   | nil => exact h
-  | cons e es ih => exact ih (inv_step cfg e hi) (inv2_step cfg e hi h)
+  | cons e es ih => exact ih hg.2 (inv_step cfg e hg.1 hi) (inv2_step cfg e hi h)
 
 
 /-! ### (B) the replica loop catches up -/
@@ -235,25 +255,38 @@ theorem applyWrite_none {st : St} (h : st.inflight = none) : doApplyWrite st = s
 theorem applyCommit_none {st : St} (h : st.inflight = none) : doApplyCommit st = st := by
   simp [doApplyCommit, h]
 
-theorem applyWrite_fresh {st : St} {s : Int} {m t : Nat} (h : st.inflight = some ⟨s, m, t, false, false⟩) :
-    (doApplyWrite st).inflight = some ⟨s, m, t, false, true⟩ ∧ (doApplyWrite st).phase = st.phase ∧
-    (doApplyWrite st).log = st.log ∧ (doApplyWrite st).consumed = st.consumed := by
-  simp [doApplyWrite, h, putRow]
+theorem applyTake_none (cfg : Cfg) {st : St} (h : st.inflight = none) : doApplyTake cfg st = st := by
+  simp [doApplyTake, h]
 
-theorem applyCommit_written {st : St} (fl : InFlight) (h : st.inflight = some fl) (hw : fl.written = true) :
-    (doApplyCommit st).inflight = none ∧ (doApplyCommit st).phase = st.phase ∧
-    (doApplyCommit st).log = st.log ∧ (doApplyCommit st).consumed = st.consumed := by
-  simp [doApplyCommit, h, hw]
+theorem applyAcquire_none {st : St} (h : st.inflight = none) : doApplyAcquire st = st := by
+  simp [doApplyAcquire, h]
+
+/-- take, acquire, write, commit of a freshly validated entry on a running node -/
+theorem apply_tail_fresh (cfg : Cfg) {st : St} (hr : st.phase = .running) {s : Int} {m t : Nat}
+    (h : st.inflight = some (InFlight.fresh s m t)) :
+    (run cfg st [.applyTake, .applyAcquire, .applyWrite, .applyCommit]).inflight = none ∧
+    (run cfg st [.applyTake, .applyAcquire, .applyWrite, .applyCommit]).phase = .running ∧
+    (run cfg st [.applyTake, .applyAcquire, .applyWrite, .applyCommit]).log = st.log ∧
+    (run cfg st [.applyTake, .applyAcquire, .applyWrite, .applyCommit]).consumed = st.consumed ∧
+    (run cfg st [.applyTake, .applyAcquire, .applyWrite, .applyCommit]).walGone = st.walGone := by
+  cases hc : cfg.atomicAcquire <;>
+    simp [run, step, whenRunning, doApplyTake, doApplyAcquire, doApplyWrite, putRow, doApplyCommit,
+      InFlight.fresh, hr, h, hc]
+
+theorem apply_tail_none (cfg : Cfg) {st : St} (hr : st.phase = .running) (h : st.inflight = none) :
+    run cfg st [.applyTake, .applyAcquire, .applyWrite, .applyCommit] = st := by
+  simp [run, step, whenRunning, hr, applyTake_none cfg h, applyAcquire_none h, applyWrite_none h,
+    applyCommit_none h]
 
 /-- `doApplyBegin` on an idle running node: nothing pending -> no change; otherwise the head moves by
-one and either the entry is in flight (unwritten) or it was rejected -/
+one and either the entry is in flight (fresh) or it was rejected -/
 theorem applyBegin_effect {st : St} (hi : Inv st) (hn : st.inflight = none) :
     (¬ st.consumed < st.appended → doApplyBegin st = st) ∧
     (st.consumed < st.appended →
       (doApplyBegin st).phase = st.phase ∧ (doApplyBegin st).log = st.log ∧
       (doApplyBegin st).consumed = st.consumed + 1 ∧
       ((doApplyBegin st).inflight = none ∨
-        ∃ m t, (doApplyBegin st).inflight = some ⟨st.consumed + 1, m, t, false, false⟩)) := by
+        ∃ m t, (doApplyBegin st).inflight = some (InFlight.fresh (st.consumed + 1) m t))) := by
   constructor
   · intro hlt
     unfold doApplyBegin
@@ -274,46 +307,31 @@ theorem applyBegin_effect {st : St} (hi : Inv st) (hn : st.inflight = none) :
     · exact ⟨rfl, rfl, rfl, Or.inr ⟨m, t, rfl⟩⟩
     · exact ⟨rfl, rfl, rfl, Or.inl hn⟩
 
-/-- what one whole `localReplicator.Replica` (begin, write, commit) does to an idle running node -/
+/-- what one whole `localReplicator.Replica` does to an idle running node whose log still exists -/
 theorem applyRound_effect (cfg : Cfg) {st : St} (hi : Inv st) (hr : st.phase = .running)
-    (hn : st.inflight = none) :
+    (hn : st.inflight = none) (hwg : st.walGone = false) :
     (run cfg st applyRound).phase = .running ∧ (run cfg st applyRound).inflight = none ∧
-    (run cfg st applyRound).log = st.log ∧
+    (run cfg st applyRound).log = st.log ∧ (run cfg st applyRound).walGone = false ∧
     (st.consumed < st.appended → (run cfg st applyRound).consumed = st.consumed + 1) ∧
     (¬ st.consumed < st.appended → (run cfg st applyRound).consumed = st.consumed) := by
   have hrun : run cfg st applyRound =
-      step cfg (step cfg (step cfg st .applyBegin) .applyWrite) .applyCommit := rfl
+      run cfg (step cfg st .applyBegin) [.applyTake, .applyAcquire, .applyWrite, .applyCommit] := rfl
   rw [hrun]
   obtain ⟨hb0, hb1⟩ := applyBegin_effect hi hn
-  have s1 : step cfg st .applyBegin = doApplyBegin st := by simp [step, whenRunning, hr]
+  have s1 : step cfg st .applyBegin = doApplyBegin st := by simp [step, whenRunning, hr, hwg]
+  rw [s1]
+  have hwg' : (doApplyBegin st).walGone = false := by
+    unfold doApplyBegin beginAt ackTo; (repeat' split) <;> exact hwg
   by_cases hlt : st.consumed < st.appended
   · obtain ⟨b1, b2, b3, b4⟩ := hb1 hlt
     have r1 : (doApplyBegin st).phase = .running := by rw [b1, hr]
-    rw [s1]
-    have s2 : step cfg (doApplyBegin st) .applyWrite = doApplyWrite (doApplyBegin st) := by
-      simp [step, whenRunning, r1]
-    rw [s2]
     rcases b4 with b4 | ⟨m, t, b4⟩
-    · -- rejected
-      rw [applyWrite_none b4]
-      have s3 : step cfg (doApplyBegin st) .applyCommit = doApplyCommit (doApplyBegin st) := by
-        simp [step, whenRunning, r1]
-      rw [s3, applyCommit_none b4]
-      exact ⟨r1, b4, b2, fun _ => b3, fun h => absurd hlt h⟩
-    · obtain ⟨w1, w2, w3, w4⟩ := applyWrite_fresh b4
-      have r2 : (doApplyWrite (doApplyBegin st)).phase = .running := by rw [w2, r1]
-      have s3 : step cfg (doApplyWrite (doApplyBegin st)) .applyCommit =
-          doApplyCommit (doApplyWrite (doApplyBegin st)) := by simp [step, whenRunning, r2]
-      rw [s3]
-      obtain ⟨c1, c2, c3, c4⟩ := applyCommit_written _ w1 rfl
-      exact ⟨by rw [c2, r2], c1, by rw [c3, w3, b2], fun _ => by rw [c4, w4, b3], fun h => absurd hlt h⟩
-  · have e0 := hb0 hlt
-    rw [s1, e0]
-    have s2 : step cfg st .applyWrite = doApplyWrite st := by simp [step, whenRunning, hr]
-    rw [s2, applyWrite_none hn]
-    have s3 : step cfg st .applyCommit = doApplyCommit st := by simp [step, whenRunning, hr]
-    rw [s3, applyCommit_none hn]
-    exact ⟨hr, hn, rfl, fun h => absurd h hlt, fun _ => rfl⟩
+    · rw [apply_tail_none cfg r1 b4]
+      exact ⟨r1, b4, b2, hwg', fun _ => b3, fun h => absurd hlt h⟩
+    · obtain ⟨t1, t2, t3, t4, t5⟩ := apply_tail_fresh cfg r1 b4
+      exact ⟨t2, t1, by rw [t3, b2], by rw [t5, hwg'], fun _ => by rw [t4, b3], fun h => absurd hlt h⟩
+  · rw [hb0 hlt, apply_tail_none cfg hr hn]
+    exact ⟨hr, hn, rfl, hwg, fun h => absurd h hlt, fun _ => rfl⟩
 
 /-- `n` iterations of the replica loop -/
 def rounds : Nat → List Ev
@@ -323,8 +341,27 @@ def rounds : Nat → List Ev
 theorem run_append (cfg : Cfg) (st : St) (a b : List Ev) : run cfg st (a ++ b) = run cfg (run cfg st a) b := by
   simp [run, List.foldl_append]
 
+/-- `rounds n` keeps to the gap discipline trivially: it contains no `freeze` -/
+theorem gapFree_rounds (cfg : Cfg) (n : Nat) (st : St) : GapFree cfg st (rounds n) := by
+  have key : ∀ (l : List Ev), (∀ e ∈ l, e ≠ .freeze) → ∀ st, GapFree cfg st l := by
+    intro l
+    induction l with
+    | nil => intro _ _; trivial
+    | cons e es ih =>
+      intro hne st
+      exact ⟨fun he => absurd he (hne e (by simp)), ih (fun e' he' => hne e' (by simp [he'])) _⟩
+  apply key
+  induction n with
+  | zero => intro e he; simp [rounds] at he
+  | succ n ih =>
+    intro e he
+    simp only [rounds, List.mem_append] at he
+    rcases he with he | he
+    · simp [applyRound] at he; rcases he with rfl | rfl | rfl | rfl | rfl <;> decide
+    · exact ih e he
+
 theorem rounds_catch_up (cfg : Cfg) (n : Nat) {st : St} (hi : Inv st) (hr : st.phase = .running)
-    (hn : st.inflight = none) (hd : st.appended - st.consumed ≤ n) :
+    (hn : st.inflight = none) (hwg : st.walGone = false) (hd : st.appended - st.consumed ≤ n) :
     Inv (run cfg st (rounds n)) ∧ (run cfg st (rounds n)).phase = .running ∧
     (run cfg st (rounds n)).inflight = none ∧ (run cfg st (rounds n)).log = st.log ∧
     (run cfg st (rounds n)).consumed = (run cfg st (rounds n)).appended := by
@@ -337,15 +374,15 @@ theorem rounds_catch_up (cfg : Cfg) (n : Nat) {st : St} (hi : Inv st) (hr : st.p
   | succ n ih =>
     have e : rounds (n + 1) = applyRound ++ rounds n := rfl
     rw [e, run_append]
-    obtain ⟨p1, p2, p3, p4, p5⟩ := applyRound_effect cfg hi hr hn
-    have hi1 : Inv (run cfg st applyRound) := inv_run cfg applyRound hi
+    obtain ⟨p1, p2, p3, pw, p4, p5⟩ := applyRound_effect cfg hi hr hn hwg
+    have hi1 : Inv (run cfg st applyRound) := inv_run cfg applyRound (gapFree_rounds cfg 1 st) hi
     have happ : (run cfg st applyRound).appended = st.appended := by simp [St.appended, p3]
     have hd1 : (run cfg st applyRound).appended - (run cfg st applyRound).consumed ≤ n := by
       rw [happ]
       by_cases hlt : st.consumed < st.appended
       · rw [p4 hlt]; omega
       · rw [p5 hlt]; omega
-    obtain ⟨q1, q2, q3, q4, q5⟩ := ih hi1 p1 p2 hd1
+    obtain ⟨q1, q2, q3, q4, q5⟩ := ih hi1 p1 p2 pw hd1
     exact ⟨q1, q2, q3, by rw [q4, p3], q5⟩
 
 end LinVerif.NodeRecovery
